@@ -311,6 +311,11 @@ func replay(file string) {
 	case "privkey":
 		k, _ := hex.DecodeString(rp.Hex)
 		evalPubFromPriv(st, "replay", k)
+	case "wif":
+		k, _ := hex.DecodeString(rp.Hex)
+		var ver int
+		fmt.Sscan(rp.Text[1:], &ver)
+		evalWIF(st, "replay", k, rp.Text[0] == 'c', byte(ver))
 	case "xkey":
 		s, _ := hex.DecodeString(rp.Hex)
 		evalXKey(st, "replay", string(s))
@@ -434,6 +439,32 @@ func main() {
 		for i := 0; i < 40; i++ {
 			k := refaddr.Sha256d([]byte(fmt.Sprint("c14 ordinary key ", i)))
 			evalPubFromPriv(st, "pubkey-ordinary", k)
+		}
+	})
+	// WIF export -> import of 4000 keys in both forms (compressed / uncompressed) x main / test
+	// version: enough keys for every value of the first checksum byte to occur behind an
+	// uncompressed key (the byte that sits where the compression flag of a compressed key is)
+	units = append(units, func(st *stats) {
+		seenFirst := map[byte]bool{}
+		for i := 0; i < 4000; i++ {
+			k := refaddr.Sha256d([]byte(fmt.Sprint("c14 wif key ", i)))
+			for _, compr := range []bool{true, false} {
+				ver := byte(0x80)
+				if i%2 == 1 {
+					ver = 0xef
+				}
+				wif := refaddr.WIFEncode(k, compr, ver)
+				if !compr {
+					raw, _ := refaddr.B58Decode(wif)
+					if len(raw) == 37 {
+						seenFirst[raw[33]] = true
+					}
+				}
+				evalWIF(st, "wif-roundtrip", k, compr, ver)
+			}
+		}
+		if !seenFirst[0x01] || len(seenFirst) < 250 {
+			ev.HarnessError("wif-roundtrip: only %d values of the first checksum byte (0x01 present: %v)", len(seenFirst), seenFirst[0x01])
 		}
 	})
 	// directed: an HD path that reaches such a key (found by the thorough tier)
